@@ -722,4 +722,36 @@ example : parse (generateResponse exMulti ⟨ascii "HEAD", [], [], [], []⟩ ++ 
 /-- F20, repaired: was `panic response/mod.rs:856` -/
 example : parse (ascii "HTTP/1.1 200 OK" ++ [13, 10] ++ ascii "Content-Length: x" ++ [13, 10, 13, 10]) = .err := by decide +kernel
 
+
+/-! ### F74 — a part without its Content-Type or Content-Range line (repaired: an error; before, the part was dropped silently) -/
+
+/-- inside the part reader: a Content-Type line that is not followed by a Content-Range line is an error, whatever follows -/
+theorem C15_reject_part_without_content_range (boundary : Bytes) (total : Nat)
+    (k : Bytes → List ContentRange → Nat → Outcome (List ContentRange))
+    (pA pB pC : Bytes × Bytes) (ct : Bytes) (acc : List ContentRange) (br : Nat)
+    (h1 : stageCT pA = .ok (ct, pB)) (h2 : stageCR pB = .ok (none, pC)) (hct : ct.isEmpty = false) :
+    partStep boundary total k pA acc br = .err := by
+  unfold partStep; rw [h1]; dsimp only; rw [h2]; simp [hct]
+
+/-- … and a Content-Range line that no Content-Type line precedes is an error -/
+theorem C15_reject_part_without_content_type (boundary : Bytes) (total : Nat)
+    (k : Bytes → List ContentRange → Nat → Outcome (List ContentRange))
+    (pA pB pC : Bytes × Bytes) (ct : Bytes) (st en : Nat) (size : Bytes) (acc : List ContentRange) (br : Nat)
+    (h1 : stageCT pA = .ok (ct, pB)) (h2 : stageCR pB = .ok (some (st, en, size), pC)) (hct : ct.isEmpty = true) :
+    partStep boundary total k pA acc br = .err := by
+  unfold partStep; rw [h1]; dsimp only; rw [h2]; simp [hct]
+
+/-- … and so is a line that belongs to no part: neither blank, nor a delimiter, nor one of the two part-header lines -/
+theorem C15_reject_line_outside_parts (boundary : Bytes) (total : Nat)
+    (k : Bytes → List ContentRange → Nat → Outcome (List ContentRange))
+    (pA pB pC : Bytes × Bytes) (acc : List ContentRange) (br : Nat)
+    (h1 : stageCT pA = .ok ([], pB)) (h2 : stageCR pB = .ok (none, pC))
+    (hb : Utf8R.allWs pC.1 = false) (hd : containsSub pC.1 boundary = false) :
+    partStep boundary total k pA acc br = .err := by
+  unfold partStep; rw [h1]; dsimp only; rw [h2]; simp [hb, hd]
+
+/-- the input of the finding: two parts, the first without its Content-Range line — `err` (was: `ok` with one part) -/
+example : parse ("HTTP/1.1 206 Partial Content\r\nHost: x\r\nContent-Type: multipart/byteranges; boundary=String_separator\r\n\r\n--String_separator\r\nContent-Type: text/plain\r\n\r\nabc\r\n--String_separator\r\nContent-Type: image/png\r\nContent-Range: bytes 1-2/9\r\n\r\nxyz\r\n--String_separator".toUTF8.toList) = .err := by
+  decide +kernel
+
 end Rws.C15
